@@ -4,6 +4,7 @@
 // Oracle: an illegal range (sandbox side not wholly inside, application side not wholly outside, null, empty, extent
 // wrapping 64 bits) must never reach a hook and never yield a pointer; a legal request is carried out on exactly its bytes.
 #include "world.hpp"
+#include <sys/mman.h>
 #include "memmon.hpp"
 
 using namespace rlbox;
@@ -22,6 +23,13 @@ static void report(const char* op, const char* cls, const std::string& d) { mon:
 static bool inside(i128 start, i128 len) { return start != 0 && len > 0 && start >= static_cast<i128>(BASE) && start + len <= static_cast<i128>(BASE) + static_cast<i128>(SIZE); }
 static bool outside(i128 start, i128 len) { return start != 0 && len > 0 && start + len <= TWO64 && (start + len <= static_cast<i128>(BASE) || start >= static_cast<i128>(BASE) + static_cast<i128>(SIZE)); }
 
+// one application buffer above the region, shared by every element type
+static void* high_buffer()
+{
+  static void* hi = mmap(reinterpret_cast<void*>(BASE + SIZE + (1ull << 30)), 8192, PROT_READ | PROT_WRITE, MAP_PRIVATE | MAP_ANONYMOUS | MAP_FIXED_NOREPLACE, -1, 0);
+  return hi;
+}
+
 template<typename T>
 static void deny_cases(mon::Rng& rng)
 {
@@ -32,7 +40,8 @@ static void deny_cases(mon::Rng& rng)
   for (int i = 0; i < mon::tier(3, 40); i++) starts.push_back(rng.below(SIZE));
   for (uint64_t off : starts) {
     i128 toend = (static_cast<i128>(SIZE) - off) / static_cast<i128>(sizeof(T));
-    std::vector<i128> nums = { 1, 2, 3, toend - 1, toend, toend + 1, toend + 2, static_cast<i128>(SIZE), (static_cast<i128>(1) << 32) + 1, TWO64 / sizeof(T), TWO64 / sizeof(T) + 1, TWO64 / sizeof(T) + toend, TWO64 - 1 };
+    std::vector<i128> nums = { 1, 2, 3, toend - 1, toend, toend + 1, toend + 2, static_cast<i128>(SIZE), (static_cast<i128>(1) << 32) + 1, TWO64 / sizeof(T), TWO64 / sizeof(T) + 1, TWO64 / sizeof(T) + toend, TWO64 - 1,
+                                TWO64 / 3 + 1, 2 * TWO64 / 3 + 1, TWO64 / 7 + 1, 3 * TWO64 / 7 + 1 };
     for (i128 num : nums) {
       if (num <= 0 || num >= TWO64) continue;
       for (int accept = 0; accept < 2; accept++) {
@@ -89,9 +98,17 @@ static void grant_cases(mon::Rng& rng)
   // (the pages around the region are inaccessible guard pages: sources there are only used with extents that make the request illegal)
   std::vector<Src> srcs = { { reinterpret_cast<uintptr_t>(appbuf), "application-buffer", true }, { BASE + 64, "pointer-into-the-sandbox", true },
                             { BASE + SIZE - sizeof(T), "last-element-of-the-sandbox", true }, { BASE - 2 * sizeof(T), "just-before-the-sandbox", false }, { 0, "null", false } };
+  // an application buffer ABOVE the region as well (the static one lies below it): a wrapped extent starting there cannot
+  // "contain the sandbox", so nothing but the overflow check of the request stands between it and the hook
+  {
+    void* hi = high_buffer();
+    if (hi != MAP_FAILED && reinterpret_cast<uintptr_t>(hi) > BASE + SIZE) { srcs.push_back({ reinterpret_cast<uintptr_t>(hi), "application-buffer-above-the-sandbox", true }); mon::hit("application-buffer-above-the-sandbox"); }
+  }
   for (auto& sc : srcs) {
     std::vector<i128> nums = { 1, 2, 3, 64, static_cast<i128>(SIZE) / sizeof(T) + 1, (static_cast<i128>(1) << 32) - 1, (static_cast<i128>(1) << 32) + 1, (static_cast<i128>(1) << 47) / sizeof(T), TWO64 / sizeof(T),
-                               TWO64 / sizeof(T) + 1, TWO64 / sizeof(T) + 3, TWO64 / (2 * sizeof(T)) + 1, TWO64 - 1 };
+                               TWO64 / sizeof(T) + 1, TWO64 / sizeof(T) + 3, TWO64 / (2 * sizeof(T)) + 1, TWO64 - 1,
+                               // counts whose byte size wraps to a value that is not smaller than the count (2^64/3 .., 2*2^64/3 .., 2^64/7 ..)
+                               TWO64 / 3 + 1, TWO64 / 3 + 2, 2 * TWO64 / 3 + 1, TWO64 / 7 + 1, 3 * TWO64 / 7 + 1, 5 * TWO64 / 7 + 1 };
     for (i128 num : nums) {
       if (num >= TWO64) continue;
       for (int accept = 0; accept < 2; accept++) {
